@@ -140,13 +140,15 @@ class Result:
 
 def discharge_text(text: str, want: list[str], z3_ms: int | None = None, cvc5_ms: int | None = None) -> Result:
 	z3_ms = z3_ms or Z3_TIMEOUT_MS
-	cvc5_ms = cvc5_ms or CVC5_TIMEOUT_MS
+	cvc5_ms = cvc5_ms if cvc5_ms is not None else CVC5_TIMEOUT_MS
 	# stage 1: z3 with a short budget (most obligations take milliseconds); stage 2: cvc5; stage 3: z3 with the full budget
 	v, dt, model, detail = _z3_run(text, want, min(z3_ms, Z3_FIRST_MS))
 	if v == 'unsat':
 		return Result('proved', 'z3', dt)
 	if v == 'sat':
 		return Result('refuted', 'z3', dt, model, detail)
+	if cvc5_ms < 0:
+		return Result('unknown', 'z3', dt, None, f'z3: {v} {detail}', tried=['z3:' + v])
 	v2, dt2, detail2 = _cvc5_run(text, cvc5_ms)
 	if v2 == 'unsat':
 		return Result('proved', 'cvc5', dt + dt2, tried=['z3:' + v])
